@@ -423,4 +423,207 @@ theorem aggregateStages_out_split (sem : Sem) (s : State) (coll target : String)
     · next w2 h2 => cases h; exact h2
     · cases h
 
+/-! ### stages that write into nothing that was there before
+
+  No invariant is needed here: these stages contain no in-place write at all, so EVERYTHING the
+  world keeps alive — collections, catalog, the caller's pipeline object, and every list on the
+  stack, in particular the stage's own input when the caller keeps it — is literally unchanged.
+  The two facts about the discipline this rests on: `$sample` does not pop (`samplePops = false`)
+  and `$addFields` copies every level of a dotted name (`addFieldsNested = .shallow`). -/
+
+theorem setOut_same (D : Disc) (h2 : D.addFieldsNested = .shallow) (w : World) (j : Nat)
+    (path : List String) (v : HV) (w' : World) (hs : setOut D w j path v = .ok w') :
+    Same w w' ∧ w'.work = w.work := by
+  simp only [setOut, h2] at hs
+  split at hs
+  · cases hs; exact ⟨⟨rfl, rfl, rfl, rfl, rfl⟩, rfl⟩
+  · cases hs; exact ⟨Same.rfl' w, rfl⟩
+
+theorem addField_same (D : Disc) (h2 : D.addFieldsNested = .shallow) (path : List String) (e : AExpr) :
+    ∀ (fuel : Nat) (w : World) (j : Nat) (w' : World),
+      addField D w path e fuel j = .ok w' → Same w w' ∧ w'.work = w.work
+  | 0, w, j, w', hs => by simp only [addField] at hs; cases hs; exact ⟨Same.rfl' w, rfl⟩
+  | fuel + 1, w, j, w', hs => by
+    simp only [addField] at hs
+    split at hs
+    · cases hs; exact ⟨Same.rfl' w, rfl⟩
+    · split at hs
+      · cases hs
+      · have ih := addField_same D h2 path e fuel _ (j + 1) w' hs
+        exact ⟨⟨ih.1.colls, ih.1.idx, ih.1.pipe, ih.1.stack, ih.1.nextSt⟩, ih.2⟩
+      · split at hs
+        · next w1 hso =>
+          have h1 := setOut_same D h2 _ j path _ w1 hso
+          have ih := addField_same D h2 path e fuel w1 (j + 1) w' hs
+          exact ⟨⟨ih.1.colls.trans h1.1.colls, ih.1.idx.trans h1.1.idx, ih.1.pipe.trans h1.1.pipe,
+            ih.1.stack.trans h1.1.stack, ih.1.nextSt.trans h1.1.nextSt⟩, ih.2.trans h1.2⟩
+        · cases hs
+
+theorem addFieldsAll_same (D : Disc) (h2 : D.addFieldsNested = .shallow) :
+    ∀ (fields : List (String × AExpr)) (w w' : World),
+      addFieldsAll D w fields = .ok w' → Same w w' ∧ w'.work = w.work
+  | [], w, w', hs => by simp only [addFieldsAll] at hs; cases hs; exact ⟨Same.rfl' w, rfl⟩
+  | (f, e) :: r, w, w', hs => by
+    simp only [addFieldsAll] at hs
+    split at hs
+    · next w1 h1 =>
+      have s1 := addField_same D h2 (splitDots f) e _ w 0 w1 h1
+      have s2 := addFieldsAll_same D h2 r w1 w' hs
+      exact ⟨s1.1.trans s2.1, s2.2.trans s1.2⟩
+    · cases hs
+
+/-- **a stage of the class `Stage.pure` performs no in-place write**: in ANY world, whatever it
+    holds and whoever shares objects with the documents the stage is handed -/
+theorem runStage_pure_same (D : Disc) (h1 : D.samplePops = false) (h2 : D.addFieldsNested = .shallow)
+    (sem : Sem) : ∀ (st : Stage) (w w' : World), st.pure = true → runStage D sem w st = .ok w' →
+      Same w w' ∧ (w.out = [] → w'.out = [])
+  | .select op opts, w, w', _, hs => by
+    simp only [runStage] at hs
+    split at hs
+    · cases hs; exact ⟨⟨rfl, rfl, rfl, rfl, rfl⟩, id⟩
+    · cases hs
+  | .sample loc, w, w', _, hs => by
+    simp only [runStage, sampleStage, h1, Bool.false_eq_true, if_false] at hs
+    split at hs
+    · split at hs
+      · split at hs
+        · split at hs
+          · cases hs
+          · cases hs; exact ⟨⟨rfl, rfl, rfl, rfl, rfl⟩, id⟩
+        · cases hs
+      · cases hs
+      · cases hs
+      · cases hs
+    · cases hs
+  | .addFields fields, w, w', _, hs => by
+    simp only [runStage] at hs
+    split at hs
+    · cases hs
+    · split at hs
+      · next w1 ha =>
+        cases hs
+        have s1 := addFieldsAll_same D h2 fields _ w1 ha
+        exact ⟨⟨s1.1.colls, s1.1.idx, s1.1.pipe, s1.1.stack, s1.1.nextSt⟩, fun _ => rfl⟩
+      · cases hs
+  | .project noId incl computed, w, w', _, hs => by
+    simp only [runStage] at hs
+    split at hs
+    · cases hs; exact ⟨⟨rfl, rfl, rfl, rfl, rfl⟩, id⟩
+    · cases hs
+  | .unwind key preserve idx, w, w', _, hs => by
+    simp only [runStage] at hs
+    split at hs
+    · cases hs
+    · split at hs
+      · cases hs
+      · cases hs; exact ⟨⟨rfl, rfl, rfl, rfl, rfl⟩, id⟩
+  | .replaceRoot e, w, w', _, hs => by
+    simp only [runStage] at hs
+    split at hs
+    · cases hs; exact ⟨⟨rfl, rfl, rfl, rfl, rfl⟩, id⟩
+    · cases hs
+  | .count name, w, w', _, hs => by
+    simp only [runStage] at hs
+    split at hs
+    · cases hs; exact ⟨⟨rfl, rfl, rfl, rfl, rfl⟩, id⟩
+    · cases hs; exact ⟨⟨rfl, rfl, rfl, rfl, rfl⟩, id⟩
+  | .lookup .., _, _, hp, _ => by simp [Stage.pure] at hp
+  | .facet .., _, _, hp, _ => by simp [Stage.pure] at hp
+  | .out .., _, _, hp, _ => by simp [Stage.pure] at hp
+  | .fail .., _, _, hp, _ => by simp [Stage.pure] at hp
+
+theorem runStages_pure_same (D : Disc) (h1 : D.samplePops = false) (h2 : D.addFieldsNested = .shallow)
+    (sem : Sem) : ∀ (ss : List Stage) (w w' : World), pureStages ss = true →
+      runStages D sem w ss = .ok w' → Same w w' ∧ (w.out = [] → w'.out = [])
+  | [], w, w', _, hs => by simp only [runStages] at hs; cases hs; exact ⟨Same.rfl' w, id⟩
+  | st :: r, w, w', hp, hs => by
+    simp only [pureStages, List.all_cons, Bool.and_eq_true] at hp
+    simp only [runStages] at hs
+    split at hs
+    · next w1 hw1 =>
+      have s1 := runStage_pure_same D h1 h2 sem st w w1 hp.1 hw1
+      have s2 := runStages_pure_same D h1 h2 sem r w1 w' (by simpa [pureStages] using hp.2) hs
+      exact ⟨s1.1.trans s2.1, fun ho => s2.2 (s1.2 ho)⟩
+    · cases hs
+
+/-! ### `$facet` WITHOUT the per-branch copy, for sub-pipelines of non-writing stages -/
+
+/-- `br` run alone on the list `input` ITSELF (the very objects the stage was handed), against
+    the collections, catalog and pipeline object of `w` -/
+def BranchShared (D : Disc) (sem : Sem) (w : World) (input : List HV) (br : String × List Stage)
+    (o : List HV) : Prop :=
+  ∃ (n : Nat) (stk : List (List HV)) (ws' : World),
+    runStages D sem { colls := w.colls, idx := w.idx, pipe := w.pipe, stack := stk, work := input,
+                      out := [], nextTmp := n, nextSt := w.nextSt } br.2 = .ok ws' ∧ o = ws'.work
+
+theorem BranchShared.congr {D : Disc} {sem : Sem} {w v : World} {input : List HV}
+    {br : String × List Stage} {o : List HV} (hc : v.colls = w.colls) (hi : v.idx = w.idx)
+    (hp : v.pipe = w.pipe) (hn : v.nextSt = w.nextSt) (h : BranchShared D sem v input br o) :
+    BranchShared D sem w input br o := by
+  obtain ⟨n, stk, ws', h1, h2⟩ := h
+  rw [hc, hi, hp, hn] at h1
+  exact ⟨n, stk, ws', h1, h2⟩
+
+/-- under a discipline that hands ONE list to all sub-pipelines, sub-pipelines of non-writing
+    stages still all see the stage's input as it was: nobody writes into it -/
+theorem runBranches_shared_iso (D : Disc) (h1 : D.samplePops = false)
+    (h2 : D.addFieldsNested = .shallow) (h3 : D.facetSharesInput = true) (sem : Sem) :
+    ∀ (bs : List (String × List Stage)) (w w' : World) (input : List HV) (rest : List (List HV)),
+      w.out = [] → w.stack = input :: rest → pureBranches bs = true →
+      runBranches D sem w bs = .ok w' →
+      (w'.colls = w.colls ∧ w'.idx = w.idx ∧ w'.pipe = w.pipe ∧ w'.nextSt = w.nextSt ∧ w'.out = []) ∧
+      ∃ outs : List (List HV), w'.stack = input :: (outs ++ rest) ∧ outs.length = bs.length ∧
+        All2 (BranchShared D sem w input) bs outs.reverse
+  | [], w, w', input, rest, ho, hstk, _, hs => by
+    simp only [runBranches] at hs; cases hs
+    exact ⟨⟨rfl, rfl, rfl, rfl, ho⟩, [], by simpa using hstk, rfl, All2.nil⟩
+  | (t, sub) :: r, w, w', input, rest, ho, hstk, hp, hs => by
+    simp only [pureBranches, List.all_cons, Bool.and_eq_true] at hp
+    simp only [runBranches, hstk, h3, Bool.not_true, Bool.false_and, Bool.false_eq_true, if_false,
+      if_true] at hs
+    split at hs
+    · next w1 hw1 =>
+      have s1 := runStages_pure_same D h1 h2 sem sub _ w1 hp.1 hw1
+      have hst1 : w1.stack = input :: rest := s1.1.stack
+      rw [hst1] at hs
+      simp only at hs
+      have ih := runBranches_shared_iso D h1 h2 h3 sem r { w1 with stack := input :: w1.work :: rest } w'
+        input (w1.work :: rest) (s1.2 ho) rfl (by simpa [pureBranches] using hp.2) hs
+      obtain ⟨⟨ic, ii, ip, in_, io⟩, outs, hstk2, hlen, hall⟩ := ih
+      refine ⟨⟨ic.trans s1.1.colls, ii.trans s1.1.idx, ip.trans s1.1.pipe, in_.trans s1.1.nextSt, io⟩,
+        outs ++ [w1.work], by rw [hstk2]; simp, by simp [hlen], ?_⟩
+      rw [List.reverse_append]
+      simp only [List.reverse_cons, List.reverse_nil, List.nil_append, List.singleton_append]
+      refine All2.cons ?_ (All2.imp (fun a b hab => ?_) hall)
+      · rw [ho] at hw1
+        exact ⟨w.nextTmp, input :: rest, w1, hw1, rfl⟩
+      · exact BranchShared.congr (w := w) s1.1.colls s1.1.idx s1.1.pipe s1.1.nextSt hab
+    · cases hs
+
+/-- **`$facet` isolation by the stages' own discipline**: when every sub-pipeline consists of
+    non-writing stages, the outputs are those of the sub-pipelines run alone on the stage's input
+    itself — even under a discipline that hands all of them the same list — and the stage as a
+    whole has written into nothing -/
+theorem facet_shared_isolated_stage (D : Disc) (h1 : D.samplePops = false)
+    (h2 : D.addFieldsNested = .shallow) (h3 : D.facetSharesInput = true) (sem : Sem) (w w' : World)
+    (bs : List (String × List Stage)) (ho : w.out = []) (hp : pureBranches bs = true)
+    (hs : runStage D sem w (.facet bs) = .ok w') :
+    Same w w' ∧ ∃ (n : Nat) (outs : List (List HV)), w'.work = [facetDoc n (bs.map (·.1)) outs] ∧
+      All2 (BranchShared D sem w w.work) bs outs := by
+  simp only [runStage] at hs
+  split at hs
+  · next w2 hr =>
+    cases hs
+    have iso := runBranches_shared_iso D h1 h2 h3 sem bs { w with stack := w.work :: w.stack } w2
+      w.work w.stack ho rfl hp hr
+    obtain ⟨⟨ic, ii, ip, in_, _⟩, outs, hstk, hlen, hall⟩ := iso
+    have hdrop : w2.stack.drop (1 + bs.length) = w.stack := by
+      rw [hstk, ← hlen, Nat.add_comm]; simp
+    have htake : (w2.stack.drop 1).take bs.length = outs := by
+      rw [hstk, ← hlen]; simp
+    refine ⟨⟨ic, ii, ip, hdrop, in_⟩, w2.nextTmp, _, rfl, ?_⟩
+    rw [htake]
+    exact All2.imp (fun a b hab => BranchShared.congr (w := w) rfl rfl rfl rfl hab) hall
+  · cases hs
+
 end MongoModel.Proofs.C16
